@@ -276,8 +276,10 @@ pzgstrf_MemInit(int_t n, int_t annz, superlumt_options_t *superlumt_options,
     iword     = sizeof(int_t);
     dword     = sizeof(doublecomplex);
 
-    if ( !zexpanders )
+    if ( !zexpanders ) {
       zexpanders = (ExpHeader *) SUPERLU_MALLOC(NO_MEMTYPE * sizeof(ExpHeader));
+      if ( !zexpanders ) SUPERLU_ABORT("SUPERLU_MALLOC fails for zexpanders");
+    }
 
     if ( refact == NO ) {
 
@@ -323,6 +325,11 @@ pzgstrf_MemInit(int_t n, int_t annz, superlumt_options_t *superlumt_options,
 	    xlusup_end = (int_t *)zuser_malloc((n) * iword, HEAD);
 	    xusub      = (int_t *)zuser_malloc((n+1) * iword, HEAD);
 	    xusub_end  = (int_t *)zuser_malloc((n) * iword, HEAD);
+	    if ( !xsup || !xsup_end || !supno || !xlsub || !xlsub_end ||
+		 !xlusup || !xlusup_end || !xusub || !xusub_end ) {
+		printf("Not enough memory to perform factorization.\n");
+		return (pzgstrf_memory_use(nzlmax, nzumax, nzlumax) + n);
+	    }
 	}
 
 	lusup = (doublecomplex *) pzgstrf_expand( &nzlumax, LUSUP, 0, 0, Glu );
